@@ -39,6 +39,11 @@ Valid(e) ==
   CASE e.op = "enum" -> EnumOK(e)
     [] e.op = "numbers" -> NumbersOK(e)
     [] e.op = "ft" -> LET n == Len(e.v0) \div 2 IN Transvect(Transvect(e.v0, e.h0, n), e.h1, n) = e.v1
+    \* get_inner_product(rows, v): the symplectic form of every row of a batch with v;  bits: int_to_bitarray(i, n) is the little-endian
+    \* expansion of i in n bits and bitarray_to_int its inverse (i below 2^n, given in limbs of 15 bits so that n may exceed 31)
+    [] e.op = "ip" -> LET n == Len(e.v) \div 2 IN Len(e.res) = Len(e.rows) /\ \A i \in 1..Len(e.rows) : e.res[i] = SympForm(e.rows[i], e.v, n)
+    [] e.op = "bits" -> /\ Len(e.bits) = e.n /\ e.back = e.limbs
+                        /\ \A k \in 1..e.n : e.bits[k] = (e.limbs[((k - 1) \div 15) + 1] \div 2^((k - 1) % 15)) % 2
     [] e.op = "tv" -> LET n == Len(e.hs[1]) \div 2 IN /\ Len(e.rows) = Len(e.res)          \* transvection(x, *hs) on an array of any batch shape acts row by row
                                                        /\ \A i \in 1..Len(e.rows) : FoldLeft(LAMBDA v, h : Transvect(v, h, n), e.rows[i], e.hs) = e.res[i]
     [] e.op = "rand" -> LET n == e.n  m == Unpack(e.m, n) IN InRange(e.t, n) /\ IsSymplectic(m, n) /\ e.b = e.t
